@@ -18,7 +18,7 @@ import z3
 from cachetools import LRUCache
 
 import claripy
-from claripy.ast import BV, FP, Bool
+from claripy.ast import BV, FP, Base, Bool
 from claripy.backends.backend import Backend
 from claripy.errors import (
     BackendError,
@@ -1031,6 +1031,11 @@ class BackendZ3(Backend):
 
     @condom
     def simplify(self, expr):
+        if isinstance(expr, Base) and any(leaf.op in ("StringS", "StringV") for leaf in expr.leaf_asts()):
+            # the sequence operators cannot be abstracted back, so simplifying such an expression is wasted work -- and
+            # the solver-based tactics below can exhaust memory on it (StrSubstr with a large index)
+            raise BackendError("BackendZ3 cannot simplify expressions over strings")
+
         expr_raw = self.convert(expr)
 
         if isinstance(expr_raw, z3.BoolRef):
